@@ -70,25 +70,25 @@ CLAIMED = {
         design="DESIGN.md section 7 C17",
         technique="Lean 4 proof (permutation invariance of the editor model) + repeated fresh-process execution"),
     "C05": dict(
-        text="Lean theorems about the chunked reader model (Model/Split.lean): any chunking of a stream, including piped stdin with arbitrary fragmentation, yields exactly the Annex-B split of the whole stream (chunked_split_eq_spec, chunking_irrelevant, stdin_fragmentation_irrelevant). The routing of convert/demux/remove is checked directly on the real binary against an independent reference computed by the stream generator (NAL sequences per output, RPU rewrites equal to the library conversion), over AU shapes, NAL sizes up to several chunks, start codes at every offset -4..+4 around hooked and real chunk multiples, 3/4-byte start codes, trailing zeros, options, file vs fragmented stdin.",
-        note="Partial: hevc_parser's NAL labelling (types, frame indices) is a parameter recorded from the real library; the routing model M7 is validated by the reference oracle, its Lean transliteration is in progress (DESIGN.md section 7 C05).",
+        text="Two-layer Lean model. (1) Chunked reader (Model/Split.lean): any chunking of a stream, including piped stdin with arbitrary fragmentation, yields exactly the Annex-B split of the whole stream (chunked_split_eq_spec, chunking_irrelevant, stdin_fragmentation_irrelevant). (2) NAL routing (Model/Hevc.lean `general` = DoviProcessor::write_nals as one step function over the NAL list, state = first-NAL / previous-frame / previous-RPU indices): convert_payloads (the written (type, bytes) sequence is the input sequence, minus UNSPEC63 with --discard, with each RPU replaced by its library rewrite when a mode/edit config is set; the command fails iff the library refuses one: convert_fails_iff), convert_conserves (same length, same type at every position, NAL i = input NAL i or its rewrite, sequences without RPUs equal), convert_without_mode_identity, discard_drops_only_el, demux_partition (BL = non-62/63 NALs themselves in order, EL = unwrapped UNSPEC63 and RPUs in order, |BL|+|EL| = |input|), demux_el_only, remove_is_bl (start codes included), late_first_nal_same_bytes (the one read-schedule dependence found: confined to one start-code length). All by induction over streams of any length and any NAL types. The model is tied to the real CLI on every generated case (3000 quick): driver op hevc.general vs the files the CLI wrote, over AU shapes, NAL sizes up to several chunks, start codes at every offset -4..+4 around hooked and real chunk multiples, 3/4-byte start codes, trailing zeros, options, file vs fragmented stdin; the independent reference (vlib/hevcref.py) remains the direct oracle.",
+        note="Trusted: Lean kernel; the statements in Props/C05.lean; the correspondence (generator, driver printer, comparison). Parameters of the model, not modelled: hevc_parser's frame label of each NAL (Item.au, supplied by the generator's own labels) and the library's RPU rewrite (conv, supplied from the real library per RPU). Hypothesis named in the demux theorems: the duplicate-RPU rule does not fire (NoDupFrom; implied by at most one RPU per access unit; the rule itself is modelled and checked against the CLI on streams with two RPUs in one access unit).",
         design="DESIGN.md section 7 C05",
-        technique="Lean 4 proof (chunking invariance by induction) + generator-reference oracle on the real CLI"),
+        technique="Lean 4 proof over a hand-written model of the reader and of the NAL routing (induction over the stream) + model/CLI correspondence on every generated stream + independent reference oracle"),
     "C06": dict(
-        text="Both layers are read through the chunked reader whose chunking invariance is a Lean theorem; mux/demux identities, AU structure (AUD, BL, EL wrapped as 63, RPU, EOS/EOB placement), --discard, independent BL/EL chunk boundaries, EL longer (error + trimmed output) and shorter (BL conserved) are checked on the real binary against the generator's reference interleave.",
-        note="Partial: the two-queue mux machine M8 is not yet transliterated to Lean; frame labels from hevc_parser are a parameter.",
+        text="Lean model of mux (Model/Hevc.lean `mux`: BL frame buffer closed on a change of frame index, queue of EL frames, one EL frame taken per closed BL frame only while another is queued behind it, finalize with the EL/BL count test) and theorems by induction over streams of any length: mux_alignment (equal frame counts: output = for each k the BL frame buffer k, EL frame k, held-back EOS/EOB; no error), mux_frame_structure (regenerated AUD first unless --no-add-aud, UNSPEC62/63 of the BL not carried, EOS/EOB after the EL or before it with --eos-before-el), mux_el_frame_wrapped (every EL NAL as UNSPEC63 with 7E 01 in front, RPU itself or its library rewrite), mux_discard_keeps_only_rpu, mux_el_longer_errors (error status, output trimmed to the BL length), mux_demux_id (demux of the muxed stream returns exactly the EL NALs and frame by frame the buffered BL NALs; mux_demux_bl_exact for --no-add-aud --eos-before-el), demux_mux_id (for every dual-layer stream with the layout [BL][EL+RPU][EOS/EOB] per access unit, mux of the two halves under --no-add-aud gives back the original NAL sequence). Both layers go through the chunked reader whose chunking invariance is the C05 theorem. Tied to the real CLI on every generated case: driver ops hevc.mux and hevc.general demux vs the files written in the chain demux -> mux -> demux, pairs, EL longer and EL shorter (where the model states the tool's actual choice and is compared exactly), independent BL/EL chunk sizes; the generator's reference interleave remains the direct oracle.",
+        note="Trusted: Lean kernel; statements in Props/C06.lean; correspondence. Parameters: hevc_parser's frame labels of BL and EL NALs, the regenerated AUD bytes (aud_for_frame) and the library's RPU rewrite. Model assumption stated in Model/Hevc.lean: frame labels are non-decreasing (the EL handler's merge into an already buffered frame is not modelled) and every label is below the frame count.",
         design="DESIGN.md section 7 C06",
-        technique="Lean 4 proof (chunking invariance) + generator-reference oracle on the real CLI"),
+        technique="Lean 4 proof over a hand-written model of the muxer state machine + model/CLI correspondence on every generated pair + generator-reference oracle"),
     "C07": dict(
-        text="extract-rpu returns RPUs in the display order computed independently by the generator from the POCs it chose (IDR/CRA/BLA periods, leading pictures, POC LSB wrap, 1..4 slices, EL present or not); inject-rpu layout (one RPU per frame, after all NALs except EOS/EOB, others unchanged), extract(inject(rpus)) = rpus, list shorter/longer, options; chunking invariance of the reader is the Lean theorem.",
-        note="Partial: the frame reordering of hevc_parser is third-party and taken as a parameter (validated against the generator's H.265 8.3.1 order); M8 inject/extract model not yet in Lean.",
+        text="Lean model of extract-rpu (collection in decode order by `general`, stable sort by the presentation number of the frame with the same decode index) and of inject-rpu's second pass (frame buffers, RPU of rpus[presentation number] behind the last NAL that is not EOS/EOB, AUD regeneration, fallback to the RPU written last when the list is shorter) in Model/Hevc.lean; theorems over all streams: extract_collects_decode_order, extract_display_order (pres a permutation of 0..n-1 and one RPU per frame: file entry pres k is the RPU of the frame decoded k-th), extract_sorted_by_presentation, inject_places_rpu (pre ++ RPU :: post with post only EOS/EOB and pre not ending in one), inject_spec (which RPU each frame gets), inject_keeps_other_nals (every class of NAL types excluding RPUs, and AUDs unless --no-add-aud, reads the same before and after), inject_one_rpu_per_frame (existing RPUs replaced), inject_shorter_list_choice (the tool's actual choice), extract_inject_id. Tied to the real CLI on every generated case (driver ops hevc.extract, hevc.inject; the model predicts the exact fallback RPU and the failing cases); the display order computed independently by the generator from its POCs remains the direct oracle.",
+        note="Trusted: Lean kernel; statements in Props/C07.lean; correspondence. Parameters: hevc_parser's decode/presentation numbering (pres) and frame labels, taken from the generator's own H.265 8.3.1 order; the library's re-encoding of the injected RPUs (the generator uses RPUs that round-trip byte-exactly).",
         design="DESIGN.md section 7 C07",
-        technique="Lean 4 proof (chunking invariance) + independent display-order oracle on the real CLI"),
+        technique="Lean 4 proof over a hand-written model of extract/inject (induction, sorting lemma) + model/CLI correspondence on every generated stream + independent display-order oracle"),
     "C18": dict(
-        text="Crafted prefix SEI NALs (1..4 messages, HDR10+ first/middle/last/only/absent, sizes across the FF-extension boundaries, other T.35 providers, truncated headers, emulation patterns) run through convert/demux/remove/mux/inject-rpu with and without --drop-hdr10plus and compared with an independent SEI walker: no ST 2094-40 message left, single-message NAL dropped, other messages keep bytes and order, everything else untouched. The re-escaping step relies on the C13 theorems.",
-        note="Partial: the SEI walker of hevc_parser is third-party (payload types >= 255 overflow a u8 there: recorded, outside the generator); SeiModel in Lean in progress.",
+        text="Lean model of the SEI walker of hevc_parser (FF-extended payload type and size, loop until at most one byte is left) and of prefix_sei_removed_hdr10plus_nalu (unescape, strip trailing zeros, locate the first ST 2094-40 message, cut [msg_offset, payload end), re-escape; NAL dropped when it is the only message) in Model/Hevc.lean, and of the option's place in the five commands (seiStage). Theorems over ALL message lists (any number, types <= 255, any payload bytes and sizes): sei_walker_roundtrip, drop_result (three-way characterisation), only_hdr10plus_nal_dropped, non_hdr10plus_untouched (the very bytes), drop_keeps_others (other messages keep bytes and order), no_hdr10plus_left (at most one such message per NAL, as quantified); over all streams: general_drop_is_sei_stage / mux_drop_is_sei_stage / inject_drop_is_sei_stage (the option = rewriting the prefix SEI NALs one by one, then the same command without it), staged_stream_origin, stream_without_hdr10plus_untouched, option_absent_identity. The re-escaping step uses the C13 theorems. Tied to the real CLI on every generated case (ops hevc.general / hevc.mux / hevc.inject with and without the option, start codes included; sei.drop / sei.msgs on every crafted NAL against the independent SEI walker); the independent reference remains the direct oracle.",
+        note="Trusted: Lean kernel; statements in Props/C18.lean; correspondence. hevc_parser 0.6.8 holds the payload type in a u8: types above 255 make the tool fail (dev profile panic) - modelled as failure and checked against the CLI. The real function is private to the binary and is reached through the CLI runs.",
         design="DESIGN.md section 7 C18",
-        technique="independent SEI-walker oracle on the real CLI + Lean 4 theorems on escaping/chunking"),
+        technique="Lean 4 proof over a hand-written model of the SEI walker and rewrite (induction over the message list) + model/CLI correspondence + independent SEI-walker oracle"),
     "C20": dict(
         text="Lean model of the C view (Model/CView.lean) with 38 theorems: error set iff parse failed for the three wrappers, null pointer iff absent part/level, L2/L8/L10 lists complete and in order, NLQ markers, every allocated object freed exactly once and no null freed. The model's view is compared with the real C API read through independent repr(C) mirror structs; the C view is compared field by field with the Rust serde JSON; call sequences (convert, set offsets, remove mapping, 4 writers) are compared with the Rust API; a sample runs under valgrind.",
         note="Partial: heap safety is observed (process survival with debug assertions, valgrind sample), not proved.",
